@@ -14,7 +14,7 @@
 (*   F_exec  one queued operation applied to the wrapped storage (a        *)
 (*           failing one is logged and skipped)                            *)
 (*   F_wait  stop.wait(flush_interval): returns on stop or on the timer    *)
-(*   F_last* the final flush after the loop                                *)
+(*   (the final flush after the loop is F_swap / F_exec with `last' set)    *)
 (*   C_stop  close(): stop.set()    C_join  thread.join    C_close wrapped *)
 (* Assumptions (stated in DESIGN.md): the join time-out does not expire;   *)
 (* no request is issued after close() begins.                              *)
@@ -39,12 +39,13 @@ fair process producer \in Producers
 variables i = 1;
 begin
 P_put:
-  while i <= Len(Script[self]) do
-    buffer := Append(buffer, Script[self][i]);
-    requested := Append(requested, Script[self][i]);
-    i := i + 1;
-    who := self;
-  end while;
+  buffer := Append(buffer, Script[self][i]);
+  requested := Append(requested, Script[self][i]);
+  i := i + 1;
+  who := self;
+  if i <= Len(Script[self]) then
+    goto P_put;
+  end if;
 end process;
 
 fair process flusher = "fl"
@@ -62,7 +63,7 @@ F_swap:
     buffer := <<>>;
   end if;
   if batch = <<>> then
-    if last then goto F_done; else goto F_wait; end if;
+    if last then goto Done; else goto F_wait; end if;
   else
     inStorage := TRUE;
   end if;
@@ -79,15 +80,13 @@ F_exec:
     if ClearAfterExec then
       buffer := <<>>;
     end if;
-    if last then goto F_done; end if;
+    if last then goto Done; end if;
   end if;
 F_wait:
   await stop \/ timer > 0;
   who := "fl";
   if ~stop then timer := timer - 1; end if;
   goto F_chk;
-F_done:
-  skip;
 end process;
 
 fair process timerp = "tm"
@@ -150,14 +149,13 @@ Init == (* Global variables *)
                                         [] self = "cl" -> "C_stop"]
 
 P_put(self) == /\ pc[self] = "P_put"
-               /\ IF i[self] <= Len(Script[self])
-                     THEN /\ buffer' = Append(buffer, Script[self][i[self]])
-                          /\ requested' = Append(requested, Script[self][i[self]])
-                          /\ i' = [i EXCEPT ![self] = i[self] + 1]
-                          /\ who' = self
-                          /\ pc' = [pc EXCEPT ![self] = "P_put"]
+               /\ buffer' = Append(buffer, Script[self][i[self]])
+               /\ requested' = Append(requested, Script[self][i[self]])
+               /\ i' = [i EXCEPT ![self] = i[self] + 1]
+               /\ who' = self
+               /\ IF i'[self] <= Len(Script[self])
+                     THEN /\ pc' = [pc EXCEPT ![self] = "P_put"]
                      ELSE /\ pc' = [pc EXCEPT ![self] = "Done"]
-                          /\ UNCHANGED << buffer, requested, who, i >>
                /\ UNCHANGED << batch, applied, stop, timer, fired, closed, 
                                inStorage, last >>
 
@@ -182,7 +180,7 @@ F_swap == /\ pc["fl"] = "F_swap"
                      /\ UNCHANGED buffer
           /\ IF batch' = <<>>
                 THEN /\ IF last
-                           THEN /\ pc' = [pc EXCEPT !["fl"] = "F_done"]
+                           THEN /\ pc' = [pc EXCEPT !["fl"] = "Done"]
                            ELSE /\ pc' = [pc EXCEPT !["fl"] = "F_wait"]
                      /\ UNCHANGED inStorage
                 ELSE /\ inStorage' = TRUE
@@ -206,7 +204,7 @@ F_exec == /\ pc["fl"] = "F_exec"
                            ELSE /\ TRUE
                                 /\ UNCHANGED buffer
                      /\ IF last
-                           THEN /\ pc' = [pc EXCEPT !["fl"] = "F_done"]
+                           THEN /\ pc' = [pc EXCEPT !["fl"] = "Done"]
                            ELSE /\ pc' = [pc EXCEPT !["fl"] = "F_wait"]
           /\ UNCHANGED << requested, stop, timer, fired, closed, i, last >>
 
@@ -221,13 +219,7 @@ F_wait == /\ pc["fl"] = "F_wait"
           /\ UNCHANGED << buffer, batch, applied, requested, stop, fired, 
                           closed, inStorage, i, last >>
 
-F_done == /\ pc["fl"] = "F_done"
-          /\ TRUE
-          /\ pc' = [pc EXCEPT !["fl"] = "Done"]
-          /\ UNCHANGED << buffer, batch, applied, requested, stop, timer, 
-                          fired, closed, who, inStorage, i, last >>
-
-flusher == F_chk \/ F_swap \/ F_exec \/ F_wait \/ F_done
+flusher == F_chk \/ F_swap \/ F_exec \/ F_wait
 
 T_fire == /\ pc["tm"] = "T_fire"
           /\ IF fired < MaxTimer
